@@ -9,6 +9,9 @@
 #include "cntgs/detail/typeTraits.hpp"
 
 #include <iterator>
+#include <string>
+#include <string_view>
+#include <vector>
 #include <version>
 
 namespace cntgs::detail
@@ -41,13 +44,22 @@ constexpr auto operator_arrow_produces_pointer_to_iterator_reference_type() noex
     }
 }
 
+#if defined(__cpp_lib_concepts) && defined(__cpp_lib_ranges)
 template <class I>
+inline constexpr bool CONTIGUOUS_ITERATOR_V = std::contiguous_iterator<I>;
+#else
+// Before C++20 an iterator cannot be asked whether it is contiguous: the iterators of std::deque and
+// std::reverse_iterator have the same category, reference and operator-> as those of std::vector. Only the iterators of
+// the standard contiguous containers qualify (pointers are handled separately).
+template <class I, class V = typename std::iterator_traits<I>::value_type>
 inline constexpr bool CONTIGUOUS_ITERATOR_V =
-    detail::IS_DERIVED_FROM<typename std::iterator_traits<I>::iterator_category, std::random_access_iterator_tag> &&
-    std::is_lvalue_reference_v<typename std::iterator_traits<I>::reference> &&
-    std::is_same_v<typename std::iterator_traits<I>::value_type,
-                   detail::RemoveCvrefT<typename std::iterator_traits<I>::reference>> &&
-    detail::operator_arrow_produces_pointer_to_iterator_reference_type<I>();
+    std::is_same_v<I, typename std::vector<V>::iterator> || std::is_same_v<I, typename std::vector<V>::const_iterator> ||
+    std::is_same_v<I, std::string::iterator> || std::is_same_v<I, std::string::const_iterator> ||
+    std::is_same_v<I, std::string_view::const_iterator>;
+
+template <class I>
+inline constexpr bool CONTIGUOUS_ITERATOR_V<I, bool> = false;
+#endif
 }  // namespace cntgs::detail
 
 #endif  // CNTGS_DETAIL_ITERATOR_HPP
